@@ -33,7 +33,7 @@ func lexAll(l lexer.Lexer, err error) ([]lexer.Token, error) {
 	return lexer.ConsumeAll(l)
 }
 
-// api-run <cases.json> <variant>: variant = core | generated | plain | upper | generated-upper.  For every grammar, lookahead and
+// api-run <cases.json> <variant>: variant = core | generated | plain | upper | generated-upper | multi-upper.  For every grammar, lookahead and
 // input, every entry point is exercised; one line per call: "id\tk\tindex\tentry point\toutcome".
 func apiRun(args []string) error {
 	f, err := os.Open(args[0])
@@ -61,8 +61,18 @@ func apiRun(args []string) error {
 		lexDef = plainDefinition{coreLexer}
 		extra = append(extra, participle.Lexer(lexDef))
 	}
+	if strings.HasPrefix(variant, "multi") {
+		// several mappers for all tokens and mappers for single token types side by side (the chain applied to a token is a
+		// function of its type alone, for every call on the parser)
+		id := func(t lexer.Token) (lexer.Token, error) { return t, nil }
+		extra = append(extra, participle.Map(id), participle.Map(id), participle.Map(id))
+	}
 	if strings.HasSuffix(variant, "upper") {
 		extra = append(extra, participle.Upper("Ident"))
+	}
+	if strings.HasPrefix(variant, "multi") {
+		id := func(t lexer.Token) (lexer.Token, error) { return t, nil }
+		extra = append(extra, participle.Map(id, "Int"), participle.Map(id, "Punct"))
 	}
 	w := bufio.NewWriterSize(os.Stdout, 1<<20)
 	defer w.Flush()
